@@ -50,6 +50,7 @@ package par1
 //@ func decodeUTF16LEString
 //@   props C13 C19 C10 C04
 //@   modifies nothing
+//@   max-alloc len(bs)
 //@   assert-call unicode/utf16.Decode : len(arg0) == len(bs)/2 && forall(q, 0, len(arg0), arg0[q] == uint16(bs[2*q]) + uint16(bs[2*q+1])<<8)
 //@   assert-call unicode/utf8.EncodeRune : true
 //@   loop 0
@@ -76,6 +77,7 @@ package par1
 //@ func readVolume
 //@   props C13 C19 C10
 //@   modifies nothing
+//@   max-alloc 2 * len(volumeBytes)
 //@   ensures implies(result1 == nil, mathint(len(result0.entries)) == mathint(result0.header.FileCount))
 //@   loop 0
 //@     invariant mathint(len(entries)) == mathint(header.FileCount) && fresh(entries) && fresh(buf)
@@ -119,7 +121,7 @@ package par1
 //@   ensures implies(gIOFailed && !old(gIOFailed), result != nil)
 //@   requires decoderOK(d)
 //@   loop 0
-//@     invariant d == old(d) && decoderOK(d) && (cap(fileData) == 0 || fresh(fileData)) && gIOFailed == old(gIOFailed)
+//@     invariant d == old(d) && decoderOK(d) && (cap(fileData) == 0 || fresh(fileData)) && implies(gIOFailed, old(gIOFailed))
 
 //@ func (*Decoder).LoadFileData$1
 //@   props C13 C19 C04 C02 C18
@@ -135,7 +137,7 @@ package par1
 //@   requires decoderOK(d)
 //@   loop 0
 //@     invariant d == old(d) && decoderOK(d) && fresh(parityData) && mathint(len(parityData)) == mathint(maxParityVolumeCount) && maxI < maxParityVolumeCount || maxParityVolumeCount == 0 && maxI == 0 && d == old(d) && decoderOK(d) && len(parityData) == 0
-//@     invariant gIOFailed == old(gIOFailed)
+//@     invariant implies(gIOFailed, old(gIOFailed))
 
 //@ func (*Decoder).LoadParityData$1
 //@   props C13 C19 C04 C18
@@ -189,7 +191,7 @@ package par1
 //@     invariant len(shards) == len(d.fileData) + len(d.parityData)
 //@     invariant i >= -1 && i < len(d.fileData) + 0 || i == -1
 //@     invariant cap(repairedPaths) == 0 || fresh(repairedPaths)
-//@     invariant len(repairedPaths) == gWritesOK - old(gWritesOK) && gIOFailed == old(gIOFailed)
+//@     invariant len(repairedPaths) == gWritesOK - old(gWritesOK) && implies(gIOFailed, old(gIOFailed))
 
 //@ func RepairErrorMeansRepairNecessaryButNotPossible
 //@   props C20
@@ -219,6 +221,7 @@ package par1
 //@   skip-safety
 //@   requires fileIO != nil
 //@   ensures implies(gIOFailed && !old(gIOFailed), result1 != nil)
+//@   ensures @C02 len(result0.RepairedPaths) == gWritesOK - old(gWritesOK)
 
 //@ func newEncoder
 //@   props C18
